@@ -794,30 +794,34 @@ func runProperty(prop, tier string, seed uint64) int {
 		"shared_object_write_protected_use": int64(agg["probes.SharedROUse"]),
 	}
 	probes := map[string]int64{
-		"stale_longer_hit":            int64(agg["probes.StaleLongerHit"]),
-		"stale_hit":                   int64(agg["sim.PoolStaleHits"]),
-		"overlap_in_parse":            int64(agg["sim.PoolOverlap"]),
-		"miss_during_overlap":         int64(agg["sim.PoolMissOverlap"]),
-		"alias_hit":                   int64(agg["sim.PoolAliasHits"]),
-		"preempt_inside_library":      int64(agg["sim.PreemptInLib"]),
-		"shared_ro_unordered_use":     int64(agg["probes.SharedROUse"]),
-		"locked_shared_use":           int64(agg["probes.LockedUse"]),
-		"frame_checks":                int64(agg["probes.FrameChecks"]),
-		"o1_keys_compared":            int64(agg["o1_compared"]),
-		"o1_calm_replays":             int64(agg["o1_calm"]),
-		"o1_distinct_keys":            int64(agg["o1_distinct_keys"]),
-		"o1x_fresh_process_compares":  int64(agg["ref_compared"]),
-		"model_checks":                int64(agg["probes.ModelChecks"]),
-		"successful_sets":             int64(agg["probes.SetOK"]),
-		"failed_sets":                 int64(agg["probes.SetFail"]),
-		"round_trips":                 int64(agg["probes.RoundTrips"]),
-		"well_formed_checks":          int64(agg["probes.WellFormedChecks"]),
-		"equality_table_compares":     int64(agg["eq_compared"]),
-		"set_neighbour_pairs_covered": int64(len(pairs)),
-		"set_neighbour_pairs_total":   int64(pairsTotal),
-		"library_panics_observed":     int64(agg["probes.Panics"]),
-		"lock_blocks":                 int64(agg["sim.LockBlocks"]),
-		"race_reports":                int64(agg["race_errors"]),
+		"stale_longer_hit":               int64(agg["probes.StaleLongerHit"]),
+		"stale_hit":                      int64(agg["sim.PoolStaleHits"]),
+		"overlap_in_parse":               int64(agg["sim.PoolOverlap"]),
+		"miss_during_overlap":            int64(agg["sim.PoolMissOverlap"]),
+		"alias_hit":                      int64(agg["sim.PoolAliasHits"]),
+		"preempt_inside_library":         int64(agg["sim.PreemptInLib"]),
+		"shared_ro_unordered_use":        int64(agg["probes.SharedROUse"]),
+		"locked_shared_use":              int64(agg["probes.LockedUse"]),
+		"frame_checks":                   int64(agg["probes.FrameChecks"]),
+		"o1_keys_compared":               int64(agg["o1_compared"]),
+		"o1_calm_replays":                int64(agg["o1_calm"]),
+		"o1_distinct_keys":               int64(agg["o1_distinct_keys"]),
+		"o1x_fresh_process_compares":     int64(agg["ref_compared"]),
+		"model_checks":                   int64(agg["probes.ModelChecks"]),
+		"successful_sets":                int64(agg["probes.SetOK"]),
+		"failed_sets":                    int64(agg["probes.SetFail"]),
+		"round_trips":                    int64(agg["probes.RoundTrips"]),
+		"well_formed_checks":             int64(agg["probes.WellFormedChecks"]),
+		"equality_table_compares":        int64(agg["eq_compared"]),
+		"set_neighbour_pairs_covered":    int64(len(pairs)),
+		"set_neighbour_pairs_total":      int64(pairsTotal),
+		"library_panics_observed":        int64(agg["probes.Panics"]),
+		"pool_gets":                      int64(agg["sim.PoolGets"]),
+		"pool_puts":                      int64(agg["sim.PoolPuts"]),
+		"pool_new_calls":                 int64(agg["sim.PoolNew"]),
+		"pool_outstanding_at_quiescence": int64(agg["probes.PoolOutstanding"]),
+		"lock_blocks":                    int64(agg["sim.LockBlocks"]),
+		"race_reports":                   int64(agg["race_errors"]),
 	}
 	rule := map[string]string{
 		"C14": "runs are generated from (VERIF_SEED, worker, index): 1-8 caller tasks, private / lock-protected / shared read-only objects of all four versions, all exported functions, the v2 scratch pool under seeded miss/drop/clear/reuse-order faults, seeded switches at operation boundaries, simulated sync operations and statement-level preemption points. A run counts as non-trivial if at least one of: a pooled buffer with more stale slots than the current vector has parts was reused, two tasks were between Get and Put of the pool at the same time, a preemption fired inside a library call, or several tasks used a shared read-only object without ordering. distinct = distinct hash over (every scheduling and pool decision, every sync event, every operation result) among the non-trivial runs (sets capped at 2^20 per worker: a lower bound).",
